@@ -86,6 +86,36 @@ def eq(E, name, got, want, **kw):
     E.oblige(name, C.compare("==", got, want), **kw)
 
 
+def freeze_stop_gradients(shared):
+    """task setup: values behind jax.lax.stop_gradient are computed from frozen copies of the parameters
+    (pyvc/lib/jax_model.py, stop_gradient) so that `same_gradient` can compare FUNCTIONS of the live parameters"""
+    shared.sg_freeze = True
+
+
+def same_gradient(E, name, impl, spec, trained):
+    """the implementation's loss and the documented expression are the same FUNCTION of the trained networks'
+    parameters (hence have the same gradient w.r.t. them): frozen copies of the trained networks' parameters stay
+    independent symbols, those of every other network are identified with the live ones.  A stop_gradient that cuts a
+    documented path (or a missing one that the documentation demands) makes the two functions differ."""
+    reg = E.st.ghost.get("sg_frozen", {})
+    tn = {getattr(n, "name", n) for n in trained}
+    hide = {fid for th, fz, nm, fid in reg.values() if nm in tn}  # the other networks' frozen copies ARE the live parameters
+    # the withheld facts are taken out of the path condition for the whole step (the Sum-congruence closure must not
+    # use them either: an equality of two sums derived WITH them would be reused by the obligation)
+    hidden = [h for h in E.st.pc if h.get_id() in hide]
+    E.st.pc[:] = [h for h in E.st.pc if h.get_id() not in hide]
+    try:
+        if E.st.qfacts and E.st.sums and not E.st.suppress:
+            from pyvc.state import prove
+
+            E.st.ghost.pop("congr_failed", None)
+            T.close_sums(E.st, prove)
+        E.st.oblige(name, C.compare("==", impl, spec), assume_after=False, using=["sum.congr", "arg.congr", "region."])
+    finally:
+        E.st.pc.extend(hidden)
+        E.st.ghost.pop("congr_failed", None)  # pairs that failed without the withheld facts may succeed with them
+
+
 def neg_mean(t, n):
     """-(1/N) sum_i t_i  (the documented estimator)"""
     return C.unop("-", C.binop("/", T.reduce(t, "sum"), n))
@@ -425,7 +455,10 @@ def mk_dpg(tanh_head=False):
 def h_dpg(E, tanh_head=False):
     N, obs, q, pi = dpg_setup(E, tanh_head)
     loss = E.call(LOSSES + "deterministic_policy_gradient_loss", q, obs, pi)
-    eq(E, "post.loss_is_minus_mean_q_of_policy_action", loss, dpg_spec(E, N, obs, q, pi))
+    want = dpg_spec(E, N, obs, q, pi)
+    from pyvc.lib.nnx_model import leaf_nets as _ln
+    same_gradient(E, "post.gradient_wrt_policy_is_gradient_of_documented_loss", loss, want, _ln(pi))
+    eq(E, "post.loss_is_minus_mean_q_of_policy_action", loss, want)
     if "pi" in gd_of(loss):
         E.st.ok("post.differentiable_in_policy")
     else:
@@ -648,6 +681,11 @@ TD7 = "rl_blox.algorithm.td7."
 
 
 def stub_avg_l1_norm(shared):
+    freeze_stop_gradients(shared)
+    _stub_avg_l1_norm(shared)
+
+
+def _stub_avg_l1_norm(shared):
     """modular: AvgL1Norm (documented: each vector divided by its mean absolute value) is used
     through its row-wise contract only: output row = function of the input row"""
     from pyvc.lib.nnx_model import comp, ensure_rows
@@ -686,7 +724,10 @@ def td7_spec(E, N, obs, emb, actor, c1, c2):
 def h_td7_loss(E):
     N, obs, emb, actor, c1, c2, critic = td7_setup(E)
     loss = E.call(TD7 + "deterministic_policy_gradient_loss_sale", emb, critic, obs, actor)
-    eq(E, "post.loss_is_minus_mean_of_critic_mean", loss, td7_spec(E, N, obs, emb, actor, c1, c2))
+    want = td7_spec(E, N, obs, emb, actor, c1, c2)
+    from pyvc.lib.nnx_model import leaf_nets as _ln
+    same_gradient(E, "post.gradient_wrt_actor_is_gradient_of_documented_loss", loss, want, _ln(actor))
+    eq(E, "post.loss_is_minus_mean_of_critic_mean", loss, want)
     if {"pi_net", "pi_l0"} <= set(gd_of(loss)):
         E.st.ok("post.differentiable_in_actor")
     else:
@@ -704,6 +745,7 @@ def h_td7_update_actor(E):
     want = td7_spec(E, N, obs, emb, actor, c1, c2)
     loss = E.call(TD7 + "td7_update_actor", policy, opt, critic, obs)
     grad = E.st.ghost.get("last_grad")
+    same_gradient(E, "post.gradient_wrt_actor_is_gradient_of_documented_loss", loss, want, actor_nets)
     eq(E, "post.loss_is_minus_mean_of_critic_mean", loss, want)
     grad_obligations(E, "post", grad, actor, ["pi_net", "pi_l0"])
     update_obligations(E, opt, actor, grad, before, actor_nets)
@@ -761,9 +803,9 @@ TASKS = [
     Task("ppo_loss[clipped region]", h_ppo_clipped_region),
     Task("ppo_loss.value_term[critic (N,)]", mk_ppo_value_term("(N,)")),
     Task("ppo_loss.value_term[critic (N,1)]", mk_ppo_value_term("(N,1)")),
-    Task("deterministic_policy_gradient_loss", mk_dpg()),
-    Task("deterministic_policy_gradient_loss[tanh head]", mk_dpg(tanh_head=True)),
-    Task("deterministic_policy_gradient_loss[batch 1]", batch1(mk_dpg())),
+    Task("deterministic_policy_gradient_loss", mk_dpg(), setup=freeze_stop_gradients),
+    Task("deterministic_policy_gradient_loss[tanh head]", mk_dpg(tanh_head=True), setup=freeze_stop_gradients),
+    Task("deterministic_policy_gradient_loss[batch 1]", batch1(mk_dpg()), setup=freeze_stop_gradients),
     Task("ddpg_update_actor", h_ddpg_update_actor),
     Task("mse_value_loss", mk_mse_value()),
     Task("mse_value_loss[batch 1]", mk_mse_value(batch1=True), allow_raise={"AssertionError"}),
